@@ -361,7 +361,9 @@ func (broker *Broker) recover() (send []sts.Hashed, err error) {
 			log.Debug("Ignore file without a hash:", f.GetPath())
 			return false
 		}
-		if partial, ok := lookup[f.GetName()]; ok {
+		if partial, ok := lookup[f.GetName()]; ok && partial.Hash == f.GetHash() {
+			// (what the receiver holds of another version of the name is of no
+			// use: the ranges it lacks are not the ranges of this version)
 			log.Debug("Found partial:", f.GetName())
 			// Partially sent; need to gracefully recover
 			parts := make(chunks, len(partial.Parts))
